@@ -121,6 +121,26 @@ extern volatile long vf_foreign_frees;      /* free() of a pointer the ledger do
 bool vf_ledger_has(const void *p);
 size_t vf_ledger_size(const void *p);
 
+
+/* ---- allocation-failure injection helpers (C15) ----------------------------- */
+#ifndef VFC_OOM_HELPERS
+#define VFC_OOM_HELPERS
+extern long vf_oom_k;        /* request: fail the k-th allocation of the next library call (0 = none) */
+extern bool vf_oom_all;      /* ... and every later one */
+extern long vf_oom_last_allocs, vf_oom_last_hits;
+static inline void oom_begin(void) {
+    vf_fail_hits = 0; vf_oom_last_allocs = vf_alloc_calls;
+    if (vf_oom_k > 0) { if (vf_oom_all) vf_fail_from = vf_alloc_calls + vf_oom_k; else vf_fail_at = vf_alloc_calls + vf_oom_k; }
+}
+/* returns the number of failures delivered during the call; the request is consumed */
+static inline long oom_end(void) {
+    vf_fail_at = 0; vf_fail_from = 0;
+    vf_oom_last_allocs = vf_alloc_calls - vf_oom_last_allocs;
+    vf_oom_last_hits = vf_fail_hits; vf_oom_k = 0;
+    return vf_oom_last_hits;
+}
+#endif
+
 #ifdef __cplusplus
 }
 #endif
